@@ -148,6 +148,11 @@ func c05Templates() []*c05Query {
 		{tag: "not", lead: []string{"key"}, aliases: []c05Alias{{"n", "int(value)", I}}, where: "!({n} > 2) | {n} = 7", kind: "plain"},
 		{tag: "prefix-names", lead: []string{"key"}, aliases: []c05Alias{{"v", "int(value)", I}, {"v2", "int(value) * 100", I}}, where: "{v} < 5 & {v2} > 150", kind: "plain"},
 		{tag: "same-name-twice", aliases: []c05Alias{{"a", "upper(value)", S}, {"a", "int(value)", I}}, lead: []string{"key"}, where: "{a} != 'A'", kind: "plain"},
+		// a name announced twice with definitions of the SAME type and different values: every use
+		// of the name (WHERE, arguments, ORDER BY) stands for the FIRST field carrying it
+		{tag: "same-name-twice-text", aliases: []c05Alias{{"a", "upper(value)", S}, {"a", "lower(value) + key", S}}, lead: []string{"key"}, extra: []string{"{a} + '!'"}, where: "{a} ^= 'A' | {a} = 'B'", kind: "plain"},
+		{tag: "same-name-twice-num", lead: []string{"key"}, aliases: []c05Alias{{"a", "int(value)", I}, {"a", "int(value) * 100", I}}, extra: []string{"str({a})", "ilist({a}, 1)"}, where: "{a} < 50 & {a} > 2", kind: "plain"},
+		{tag: "same-name-twice-order", lead: []string{"key"}, aliases: []c05Alias{{"a", "int(value)", I}, {"a", "0 - int(value)", I}}, where: "{a} >= 3", suffix: " order by {a} desc, key", kind: "order"},
 		{tag: "unused-alias", lead: []string{"key"}, aliases: []c05Alias{{"n", "int(value)", I}, {"m", "{n} * {n}", I}}, where: "value != '5'", kind: "plain"},
 		{tag: "order-by", lead: []string{"key"}, aliases: []c05Alias{{"n", "int(value)", I}}, where: "{n} > 2", suffix: " order by {n} desc, key", kind: "order"},
 		{tag: "order-by-derived", aliases: []c05Alias{{"n", "int(value)", I}, {"s", "str({n} * 2)", S}}, lead: []string{"key"}, where: "{n} != 5", suffix: " order by {s}, key desc", kind: "order"},
@@ -657,6 +662,15 @@ func (cr *c05Run) combo(qy *c05Query, st [][2]string, path string, B, k int, coq
 	ref := runs[key{true, false, false}]
 	if ref.BuildErr {
 		e.count("rejected")
+		if !strings.HasPrefix(qy.tag, "random") && !runs[key{false, false, false}].BuildErr {
+			// a fixed shape (accepted by the library the twins were validated against) is refused with
+			// the names while the same statement with the definitions written out is accepted: the
+			// name does not stand for its definition
+			idx := e.add(c05vOld(c05Trivial), rp, false)
+			r := rp
+			r.What = "the statement with the names is rejected, the statement with the definitions written out is accepted"
+			e.fail(idx, "a statement using a select-field name is rejected although the same statement with the definition written out is accepted", "C05/alias-rejected-expansion-accepted", r)
+		}
 		return
 	}
 	e.count("kind=" + qy.kind)
